@@ -35,7 +35,7 @@ Print Assumptions C06_primary_gc_keeps_records_not_on_the_freelist_file.
 (* ---- index GC cycles as THREADS.  [QIgcCycle scanFree] is a program of atomic steps next to the callers' programs of C05: the
    free-file scan, then one step per index file (mark, merge, truncate, unlink the first file when it is empty) up to the file
    that was current when the cycle began.  For ANY number of threads - callers (Put, Get, Has, GetSize, Remove, Flush) and index
-   GC cycles - and ANY schedule of their steps, if no two writers address one key: every completed call returned what the
+   GC cycles - and ANY schedule of their steps (writers of one key are serialised by the key lock): every completed call returned what the
    specification map answered at its linearization point (a GC step never changes the map), and the shared state stays related
    to the map: no call fails, loses or resurrects a key because a cycle marked, merged, truncated or unlinked underneath it.
    Missing relative to the full property: the steps inside the reaping of ONE file (per-record busy checks: freedom of an index
